@@ -1007,6 +1007,8 @@ func concSrcFacts() string {
 	files, _ := filepath.Glob(filepath.Join(repo, "*.go"))
 	fset := token.NewFileSet()
 	seen := map[string]bool{}
+	direct := map[string][]string{}      // function -> store methods it calls directly
+	callers := map[string]map[string]bool{} // function name -> functions whose body mentions a call of that name
 	for _, f := range files {
 		base := filepath.Base(f)
 		if strings.HasSuffix(base, "_test.go") || strings.HasPrefix(base, "verif_") {
@@ -1025,11 +1027,40 @@ func concSrcFacts() string {
 				if c, ok := n.(*ast.CallExpr); ok {
 					ch := selChain(c.Fun)
 					if len(ch) >= 3 && ch[len(ch)-2] == "store" && want[ch[len(ch)-1]] {
-						seen[fd.Name.Name+":"+ch[len(ch)-1]] = true
+						direct[fd.Name.Name] = append(direct[fd.Name.Name], ch[len(ch)-1])
+					} else if len(ch) >= 1 {
+						callee := ch[len(ch)-1]
+						if callers[callee] == nil {
+							callers[callee] = map[string]bool{}
+						}
+						callers[callee][fd.Name.Name] = true
 					}
 				}
 				return true
 			})
+		}
+	}
+	// The call sites the model knows are named by their function.  A mutation that sits in an unexported helper the model
+	// does not know (a block moved into a function of its own) is attributed to the functions that call the helper, up to
+	// three levels: extracting a helper is not a new call site, a store call reached from somewhere else is.
+	known := map[string]bool{"SetNextSenderMsgSeqNum": true, "dropAndReset": true, "persist": true, "prepMessageForSend": true}
+	var attribute func(fn string, depth int, visited map[string]bool) []string
+	attribute = func(fn string, depth int, visited map[string]bool) []string {
+		if known[fn] || depth == 0 || visited[fn] || len(callers[fn]) == 0 || (fn[0] >= 'A' && fn[0] <= 'Z') {
+			return []string{fn}
+		}
+		visited[fn] = true
+		var out []string
+		for c := range callers[fn] {
+			out = append(out, attribute(c, depth-1, visited)...)
+		}
+		return out
+	}
+	for fn, ms := range direct {
+		for _, owner := range attribute(fn, 3, map[string]bool{}) {
+			for _, m := range ms {
+				seen[owner+":"+m] = true
+			}
 		}
 	}
 	var out []string
